@@ -359,6 +359,32 @@ def run_oracles(si, sm, viol, cover):
                     viol("C09", None, "trace work credited for %d objects but only %d are traced (black): a re-queued object keeps its trace credit" % (traced_c, nb), k)
                 if traced_c < nbt:
                     viol("C10", None, "trace credit (%d) is lower than the number of traced objects (%d): a later write barrier underflows the counter" % (traced_c, nbt), k)
+            # the counting invariant CInv (proved for the model: C09_counting_invariant), read off the implementation:
+            # marking: `marked` is exactly the number of non-white objects and nothing has been swept;
+            # sweeping: marked = remembered + non-white objects not yet swept; asleep: all work counters are zero
+            objs = all_objs(post)
+            if post["p"] == "1":
+                nw = sum(1 for (_, c, _, _) in objs if c != "W")
+                if marked_c != nw:
+                    viol("C09", None, "while marking, mark work is credited for %d objects but %d objects are marked (non-white): "
+                                      "an object earns the mark credit more or less than once" % (marked_c, nw), k)
+                if dropped_c or freed_c or rem_c:
+                    viol("C09", None, "sweep work (dropped %d, freed %d, remembered %d) is credited while marking" % (dropped_c, freed_c, rem_c), k)
+            elif post["p"] == "2":
+                ids = [i for (i, _, _, _) in objs]
+                sw = post.get("sw", "-")
+                uns = objs[ids.index(int(sw)):] if sw != "-" and int(sw) in ids else []
+                nwu = sum(1 for (_, c, _, _) in uns if c != "W")
+                nbu = sum(1 for (_, c, _, _) in uns if c == "B")
+                if marked_c != rem_c + nwu:
+                    viol("C09", None, "while sweeping, marked (%d) differs from remembered (%d) + marked objects not yet swept (%d)" % (marked_c, rem_c, nwu), k)
+                if traced_c > nbu + rem_c:
+                    viol("C09", None, "while sweeping, traced (%d) exceeds traced objects not yet swept (%d) + kept (%d)" % (traced_c, nbu, rem_c), k)
+                if dropped_c > freed_c + rem_c:
+                    viol("C09", None, "while sweeping, dropped (%d) exceeds freed (%d) + kept (%d)" % (dropped_c, freed_c, rem_c), k)
+            elif post["p"] == "0":
+                if marked_c or traced_c or dropped_c or freed_c or rem_c:
+                    viol("C09", None, "work counters are not reset while asleep: %s" % post["m"], k)
             cover["C09:credit-bound-checks"] += 1
 
         # ---- C10: metrics are truthful ---------------------------------------------------------
@@ -561,5 +587,7 @@ def run_oracles(si, sm, viol, cover):
             viol("C10", None, al, len(si["lines"]) - 1)
         elif "DynamicRootSet" in al:
             viol("C14", None, al, len(si["lines"]) - 1)
+            if "ANOTHER arena" in al:
+                viol("C20", None, al, len(si["lines"]) - 1)
         else:
             viol("C01", None, "harness alarm: " + al, len(si["lines"]) - 1)
